@@ -652,6 +652,96 @@ func c02BelowMinimum(driver string) vh.Unit {
 	}}
 }
 
+// "elapsed is the time since the client's previous keep-alive or connect": histories in which the
+// client re-registers between keep-alives. Every keep-alive bills exactly the stretch since the
+// later of the two, on both drivers.
+func c02Reconnects(driver string) vh.Unit {
+	name := "reconnects/" + driver
+	return vh.Unit{Name: name, Run: func(u *vh.U) {
+		cast := vh.StdCast()
+		C, H := cast.ByName["C1"], cast.ByName["H1"]
+		alphabet := []string{"tick 7s", "tick 40s", "upd", "conn"}
+		var hist []string
+		var rec func(depth int)
+		run := func(h []string) {
+			vsched.ResetClock(0)
+			pw := vh.NewPoolWorld(vh.PoolConfig{Driver: driver, Price: big.NewInt(1000), Interval: time.Second})
+			for _, e := range []string{"conn H1", "conn C1", "upd C1 H1"} {
+				vh.PoolEvent(pw, cast, e)
+			}
+			last := vsched.Now()
+			for i, ev := range h {
+				switch ev {
+				case "tick 7s":
+					vsched.Advance(7 * time.Second)
+				case "tick 40s":
+					vsched.Advance(40 * time.Second)
+				case "conn":
+					if _, err := pw.Connect(C, vh.ConnectOpts{}); err != nil {
+						u.Violate("reconnects/"+driver+"/reconnect-refused", fmt.Sprintf("history %v: %v", h[:i+1], err), nil)
+						return
+					}
+					last = vsched.Now()
+				case "upd":
+					before, _ := pw.Raw.GetNodeBalance(store.NodeID(H.NodeID))
+					cb, _ := pw.Raw.GetNodeBalance(store.NodeID(C.NodeID))
+					pw.UpdateCtx(vh.CtxWith(pw.Host(H.Name).Service()), H, nil, 1) // the host stays active
+					if _, err := pw.Update(C, []string{H.NodeID}, 1); err != nil {
+						u.Violate("reconnects/"+driver+"/keep-alive-refused", fmt.Sprintf("history %v: %v", h[:i+1], err), nil)
+						return
+					}
+					after, _ := pw.Raw.GetNodeBalance(store.NodeID(H.NodeID))
+					ca, _ := pw.Raw.GetNodeBalance(store.NodeID(C.NodeID))
+					el := vsched.Now().Sub(last)
+					want := new(big.Int).Div(new(big.Int).Mul(big.NewInt(int64(el)), big.NewInt(1000)), big.NewInt(int64(time.Second)))
+					got := new(big.Int).Sub(&after.Credit, &before.Credit)
+					paid := new(big.Int).Sub(&cb.Credit, &ca.Credit)
+					last = vsched.Now()
+					if i == len(h)-1 {
+						u.R.Evaluations++
+						u.R.States++
+						u.R.Transitions += int64(len(h))
+						u.R.Traces++
+						u.Observe(fmt.Sprintf("reconnects %s el=%s ok=%v", driver, el, got.Cmp(want) == 0))
+						if got.Cmp(want) != 0 || paid.Cmp(want) != 0 {
+							cls := "overcharged"
+							if got.Cmp(want) < 0 {
+								cls = "undercharged"
+							}
+							u.Violate("reconnects/"+driver+"/"+cls, fmt.Sprintf("history %v (after: host and client registered, client reported the host): %s since the client's previous keep-alive or connect, the host was credited %s and the client debited %s, expected %s", h, el, got, paid, want), nil)
+						}
+					}
+				}
+			}
+		}
+		rec = func(depth int) {
+			if len(hist) > 0 && hist[len(hist)-1] == "upd" {
+				run(hist)
+				if u.NViolations() > 0 {
+					return
+				}
+			}
+			if depth == 0 {
+				return
+			}
+			for _, ev := range alphabet {
+				hist = append(hist, ev)
+				rec(depth - 1)
+				hist = hist[:len(hist)-1]
+				if u.NViolations() > 0 {
+					return
+				}
+			}
+		}
+		depth := 5
+		if u.Thorough() {
+			depth = 7
+		}
+		rec(depth)
+		u.Sample(fmt.Sprintf("all histories over {tick 7s, tick 40s, keep-alive, reconnect} up to length %d ending in a keep-alive", depth))
+	}}
+}
+
 func init() {
 	vh.Register(&vh.Check{
 		ID: "C02", Level: "model_checking",
@@ -693,7 +783,7 @@ func init() {
 					us = append(us, c10SerialNamed("overlapping-keepalives", d, "queued-then-late", b))
 				}
 			}
-			us = append(us, c02BinaryPrice())
+			us = append(us, c02BinaryPrice(), c02Reconnects(vh.Memory), c02Reconnects(vh.Badger))
 			return us
 		},
 	})
